@@ -169,7 +169,7 @@ class Ctx:
         t = time.time()
         workers = workers or min(8, self.ncpu)
         rc, out = self.tlc_raw(module, cfg, workers=workers, env=env, timeout=timeout,
-                               extra=["-coverage", "1"], xmx=xmx, tag=(label or cfg or module))
+                               extra=(["-coverage", "1"] if require_actions else []), xmx=xmx, tag=(label or cfg or module))
         if rc != 0 or "Model checking completed. No error has been found" not in out:
             raise ToolError(f"model checking of {module}/{cfg or module} failed (specification error, not a "
                             f"finding about the code):\n" + out[-4000:])
